@@ -132,3 +132,80 @@ Example C16_query_eq_tree_reference_nonvacuous :
   eval_ref_nodes ex16_attrs ex16_labels ex16_nodes (p_comps ex16_path) =
     Ok [VList [VList [VIdx 10; VIdx 11; VIdx 10]; VList [VIdx 10; VIdx 11]]].
 Proof. vm_compute. repeat split; reflexivity. Qed.
+
+(* ==== evaluation over the nested JSON rendering ========================================= *)
+From PBK Require Import NestedProofs QueryRefValues QueryRefJson.
+
+(* evaluating to values directly (the "only value nodes yield values" check at the path
+   end, as the reference over the rendering does) = nodes first, values afterwards (as
+   dataquery.py does): same results AND same error classes, for every path *)
+Theorem C16_values_directly_eq_nodes_then_values : forall attrs labels nodes cs,
+  eval_ref attrs labels nodes cs = eval_ref_nodes attrs labels nodes cs.
+Proof. exact eval_ref_fusion. Qed.
+Print Assumptions C16_values_directly_eq_nodes_then_values.
+
+(* the reference over the rendering (QueryRef.eval_json: structural recursion on the path
+   over Nested.jn, the Coq counterpart of ref_eval in harness/props/C16.py) equals the
+   reference over the tree, when replication nodes hold whole repetitions and the
+   rendering unfolds attributes of attributes at least |path| levels deep *)
+Theorem C16_json_reference_eq_tree_reference : forall attrs ia vals labels k nodes cs,
+  wf_nodes vals nodes -> (length cs <= k)%nat ->
+  eval_json labels (render_nodes attrs ia vals k nodes) cs = eval_ref attrs labels nodes cs.
+Proof. exact eval_json_tree. Qed.
+Print Assumptions C16_json_reference_eq_tree_reference.
+
+(* C16, FULL STATEMENT for child and attribute steps: a query over a wired subset returns
+   exactly what evaluating the path over the nested JSON rendering returns: one envelope per
+   replication, one list per repetition, matches in document order, values of value nodes
+   only; same error class otherwise.  Hypotheses: the tree comes from wiring; no component
+   uses the descendant separator (executable: simple_path); enough fuel (explicit bound, the
+   depth of the tree does not enter); attributes rendered deep enough. *)
+Theorem C16_query_eq_reference : forall ndesc vals links T nodes s ia labels fuel k p,
+  wire ndesc vals links T = Ok (nodes, s) -> simple_path (p_comps p) = true ->
+  (2 * length (p_comps p) + 1 <= fuel)%nat -> (length (p_comps p) <= k)%nat ->
+  process_one_subset (x_attrs s) labels fuel nodes p =
+  eval_json labels (render_nodes (x_attrs s) ia vals k nodes) (p_comps p).
+Proof. exact query_eq_reference_wired. Qed.
+Print Assumptions C16_query_eq_reference.
+
+(* the same for any tree whose replication nodes hold whole repetitions *)
+Theorem C16_query_eq_reference_wf : forall attrs ia vals labels fuel k nodes p,
+  wf_nodes vals nodes -> simple_path (p_comps p) = true ->
+  (2 * length (p_comps p) + 1 <= fuel)%nat -> (length (p_comps p) <= k)%nat ->
+  process_one_subset attrs labels fuel nodes p =
+  eval_json labels (render_nodes attrs ia vals k nodes) (p_comps p).
+Proof. exact query_eq_reference. Qed.
+Print Assumptions C16_query_eq_reference_wf.
+
+(* non-vacuity: 204008 031021 102002(012001 012001) 204000 101000 031001 (001001): a fixed
+   replication whose members carry associated fields (attributes), a delayed replication;
+   /102002/012001[::-1].A12001 and /101000.031001[:] *)
+Definition ex16_elem (id : N) : desc := DElem (mkElem id [] 0 0 8).
+Definition ex16_T : descs :=
+  DCons (DOper 204008) (DCons (ex16_elem 31021)
+  (DCons (DFixed 102002 (DCons (ex16_elem 12001) (DCons (ex16_elem 12001) DNil))) (DCons (DOper 204000)
+  (DCons (DDelayed 101000 (ex16_elem 31001) (DCons (ex16_elem 1001) DNil)) DNil)))).
+Definition ex16_vals : list value :=
+  [VInt 1; VInt 3; VInt 280; VInt 3; VInt 281; VInt 3; VInt 282; VInt 3; VInt 283; VInt 2; VInt 10; VInt 11].
+Definition ex16_lA : list char := [65; 49; 50; 48; 48; 49]%N.      (* "A12001" *)
+Definition ex16_wlabels : list (list char) :=
+  [id6 31021; ex16_lA; id6 12001; ex16_lA; id6 12001; ex16_lA; id6 12001; ex16_lA; id6 12001;
+   id6 31001; id6 1001; id6 1001].
+Definition ex16_p1 : path :=
+  mkPath None [mkComp ch_slash (id6 102002) (SInt 0);
+               mkComp ch_slash (id6 12001) (SSlice None None (Some (-1)%Z));
+               mkComp ch_dot ex16_lA (SInt 0)].
+Definition ex16_p2 : path :=
+  mkPath None [mkComp ch_slash (id6 101000) (SInt 0); mkComp ch_dot (id6 31001) slice_all].
+
+Example C16_query_eq_reference_nonvacuous :
+  exists nodes s,
+    wire 12 ex16_vals [] ex16_T = Ok (nodes, s) /\
+    simple_path (p_comps ex16_p1) = true /\ simple_path (p_comps ex16_p2) = true /\
+    process_one_subset (x_attrs s) ex16_wlabels 7 nodes ex16_p1 =
+      Ok [VList [VList [VIdx 1; VIdx 3]; VList [VIdx 5; VIdx 7]]] /\
+    eval_json ex16_wlabels (render_nodes (x_attrs s) (fun _ => false) ex16_vals 3 nodes) (p_comps ex16_p1) =
+      Ok [VList [VList [VIdx 1; VIdx 3]; VList [VIdx 5; VIdx 7]]] /\
+    process_one_subset (x_attrs s) ex16_wlabels 5 nodes ex16_p2 = Ok [VIdx 9] /\
+    eval_json ex16_wlabels (render_nodes (x_attrs s) (fun _ => false) ex16_vals 2 nodes) (p_comps ex16_p2) = Ok [VIdx 9].
+Proof. eexists; eexists. split; [vm_compute; reflexivity|]. vm_compute. repeat split; reflexivity. Qed.
